@@ -13,7 +13,7 @@ pub fn meta() -> Meta {
     Meta {
         id: "C12",
         level: "exploration",
-        rule: "paired FASTQ read sets through the real SkaDict::new (in-process) against a brute-force count model: genome g of k+2 letters and a variant g' differing in the middle base of the central window, k in {5,9,31,33} (thorough: + 7, 63), both strand modes. Family A (counts): min-count c=1..6 x every multiplicity pair (a,a') in {0,c-1,c,c+1}^2 for the two central k-mers x every split of each multiplicity between file 1 (forward) and file 2 (reverse complement). Family B (quality): c in 1..3, three quality rules x min-qual in {0,1,20,40} x one designated low-quality base (middle, middle-1, first, last of a k-long read; positions 0, h, h+1, k+1 of a (k+2)-long read) with quality in {Q-1,Q,Q+1} on exactly one of the c copies. Family C: N at every position of the (k+2)-long read, and of a read of 2k+4 letters (k or more valid bases behind the N; also a low-quality base there under the strict rule). Family D: the same through `ska build -f` option parsing (one of the two files with CRLF line ends in two of the four configurations), and a single FASTQ file given as positional argument or as a two-field list line. Family P (k in {5,7,31,33}; thorough + 9, 15, 63): reads holding a k-mer whose arms are reverse complements of each other (X m rc(X), each m; also homopolymer arms A^h m A^h, A^h m T^h, G^h m G^h; bare, with flanks), c=1..3, totals c-1/c/c+1 split between the strands and the files in every way. Family E (k in {5,33}; thorough + 7, 31, 63): every multiset of up to three reads drawn from all substrings of length k..k+3, both orientations, of a (k+3)-letter genome and of its one-substitution variant (quick: triples from the genome only), all in file 1 or alternating between the files, c=1..3 (the same k-mer met as first window of one read and as rolled window of another, on either strand); and every pair of such reads with one base of quality Q-1 or Q at every position of the first (k<=7; ends and window middles otherwise; quick: k=5 only), middle and strict rule, c=1..2. One larger data set (~2*10^4 distinct k-mers plus singleton error k-mers) bounds the share of below-threshold k-mers that enter; a 400 kb genome given three times as reads at min-count 3 must give exactly the FASTA builder's dictionary of the genome (4*10^5 distinct k-mers, none lost). Non-trivial = the model's dictionary is non-empty or a k-mer sits exactly at a threshold.".into(),
+        rule: "paired FASTQ read sets through the real SkaDict::new (in-process) against a brute-force count model: genome g of k+2 letters and a variant g' differing in the middle base of the central window, k in {5,9,31,33} (thorough: + 7, 63), both strand modes. Family A (counts): min-count c=1..6 x every multiplicity pair (a,a') in {0,c-1,c,c+1}^2 for the two central k-mers x every split of each multiplicity between file 1 (forward) and file 2 (reverse complement). Family B (quality): c in 1..3, three quality rules x min-qual in {0,1,20,40} x one designated low-quality base (middle, middle-1, first, last of a k-long read; positions 0, h, h+1, k+1 of a (k+2)-long read) with quality in {Q-1,Q,Q+1} on exactly one of the c copies. Family C: N at every position of the (k+2)-long read, and of a read of 2k+4 letters (k or more valid bases behind the N; also a low-quality base there under the strict rule). Family D: the same through `ska build -f` option parsing (one of the two files with CRLF line ends in two of the four configurations), and a single FASTQ file given as positional argument or as a two-field list line. Family P (k in {5,7,31,33}; thorough + 9, 15, 63): reads holding a k-mer whose arms are reverse complements of each other (X m rc(X), each m; also homopolymer arms A^h m A^h, A^h m T^h, G^h m G^h; bare, with flanks), c=1..3, totals c-1/c/c+1 split between the strands and the files in every way. Family M: several read samples in one `ska build` (a sample seeing a read c times, one seeing it c-1 times plus another read c times, a third), every column must equal the sample built alone, both sample orders. Family E (k in {5,33}; thorough + 7, 31, 63): every multiset of up to three reads drawn from all substrings of length k..k+3, both orientations, of a (k+3)-letter genome and of its one-substitution variant (quick: triples from the genome only), all in file 1 or alternating between the files, c=1..3 (the same k-mer met as first window of one read and as rolled window of another, on either strand); and every pair of such reads with one base of quality Q-1 or Q at every position of the first (k<=7; ends and window middles otherwise; quick: k=5 only), middle and strict rule, c=1..2. One larger data set (~2*10^4 distinct k-mers plus singleton error k-mers) bounds the share of below-threshold k-mers that enter; a 400 kb genome given three times as reads at min-count 3 must give exactly the FASTA builder's dictionary of the genome (4*10^5 distinct k-mers, none lost). Non-trivial = the model's dictionary is non-empty or a k-mer sits exactly at a threshold.".into(),
         assumptions: vec!["an extra entry would only be acceptable as a counting-filter collision; on these inputs none is expected and any extra is reported".into(), "a sample in which nothing reaches the threshold may be refused".into()],
         exhaustive_when_uncapped: true,
     }
@@ -128,6 +128,65 @@ pub fn run(ctx: &Ctx, rep: &mut Report) {
     let thorough = ctx.tier.thorough();
     let ks: Vec<usize> = if thorough { vec![5, 7, 9, 31, 33, 63] } else { vec![5, 9, 31, 33] };
     let mut idx = 0u64;
+    // (run first: its cases are separate processes, so what they report can be replayed one by one)
+    // Family M: several read samples in ONE `ska build` (nothing may carry over from one sample's filter to the next):
+    // sample "full" sees the read R c times; sample "below" sees R only c-1 times and another read S c times. Each
+    // column must be what the sample gives when built alone; both orders of the two samples, and a third sample.
+    for (k, c) in [(9usize, 2usize), (9, 5), (33, 3), (31, 2)] {
+        idx += 1;
+        if !ctx.mine(idx) {
+            continue;
+        }
+        let g = repeat_free(k + 6, k, 0, ctx.seed + 14);
+        let r: Read = (g[..k + 2].to_vec(), vec![30u8; k + 2]);
+        let s2: Read = (g[3..].to_vec(), vec![30u8; k + 3]);
+        let dir = scratch::path("c12multi");
+        let _ = std::fs::create_dir_all(&dir);
+        let full: [Vec<Read>; 2] = [(0..c).map(|i| if i % 2 == 0 { r.clone() } else { rc_read(&r) }).collect(), vec![]];
+        let below: [Vec<Read>; 2] = [(0..c - 1).map(|_| r.clone()).collect(), (0..c).map(|i| if i % 2 == 0 { s2.clone() } else { rc_read(&s2) }).collect()];
+        let third: [Vec<Read>; 2] = [(0..c).map(|i| if i % 2 == 1 { s2.clone() } else { rc_read(&s2) }).collect(), (0..c - 1).map(|_| rc_read(&r)).collect()];
+        for (name, f) in [("full", &full), ("below", &below), ("third", &third)] {
+            std::fs::write(format!("{dir}/{name}_1.fastq"), fastq(&f[0])).unwrap();
+            std::fs::write(format!("{dir}/{name}_2.fastq"), fastq(&f[1])).unwrap();
+        }
+        for order in [vec!["full", "below"], vec!["below", "full"], vec!["full", "third", "below"], vec!["third", "full"]] {
+            for rc in [true, false] {
+                rep.evaluations += 1;
+                rep.nontrivial += 1;
+                rep.corner("cli_build_several_read_samples");
+                std::fs::write(format!("{dir}/list.txt"), order.iter().map(|n| format!("{n}\t{n}_1.fastq\t{n}_2.fastq\n")).collect::<String>()).unwrap();
+                let (ks, cs) = (k.to_string(), c.to_string());
+                let mut args = vec!["build", "-k", &ks, "-o", "multi", "-f", "list.txt", "--min-count", &cs, "--min-qual", "20", "--qual-filter", "strict"];
+                if !rc {
+                    args.push("--single-strand");
+                }
+                scratch::stale(&format!("{dir}/multi.skf"));
+                let o = cli::run(&args, &dir, None);
+                let got = cli::run(&["nk", "--full-info", "multi.skf"], &dir, None);
+                let nk = cli::parse_nk(&got.stdout);
+                // expected: each sample's own model dictionary
+                let models: Vec<std::collections::BTreeMap<String, u8>> = order.iter().map(|n| { let f = match *n { "full" => &full, "below" => &below, _ => &third }; read_filter_model(&[f[0].clone(), f[1].clone()], k, rc, c, 20, QRule::Strict) }).collect();
+                if models.iter().any(|m| m.is_empty()) {
+                    // a sample without any k-mer at the count makes the build refuse: not this family's business
+                    rep.corner("cli_build_several_read_samples_(a_sample_is_empty)");
+                    continue;
+                }
+                let mut want: std::collections::BTreeMap<String, Vec<u8>> = std::collections::BTreeMap::new();
+                for (i, m) in models.iter().enumerate() {
+                    for (key, b) in m {
+                        want.entry(key.clone()).or_insert_with(|| vec![b'-'; order.len()])[i] = *b;
+                    }
+                }
+                let ok = o.code == 0 && nk.as_ref().map_or(false, |n| n.names == order.iter().map(|s| s.to_string()).collect::<Vec<_>>() && n.rows == want);
+                if !ok {
+                    let diff: Vec<String> = nk.as_ref().map(|n| want.iter().filter(|(a, b)| n.rows.get(*a) != Some(*b)).take(3).map(|(a, b)| format!("{a}: want {} got {:?}", String::from_utf8_lossy(b), n.rows.get(a).map(|x| String::from_utf8_lossy(x).to_string()))).collect()).unwrap_or_default();
+                    let extra: Vec<String> = nk.as_ref().map(|n| n.rows.iter().filter(|(a, _)| !want.contains_key(*a)).take(3).map(|(a, b)| format!("{a}:{}", String::from_utf8_lossy(b))).collect()).unwrap_or_default();
+                    rep.violate(format!("M k={k} c={c} rc={rc} order={order:?}"), format!("ska build of the read samples {order:?} in one command (exit {}), min-count {c}: columns differ from the samples built alone: {diff:?}; rows that should not exist: {extra:?}", o.code), json!({"cli": true, "multi": order, "k": k, "c": c, "rc": rc}));
+                }
+            }
+        }
+    }
+    rep.completed.push("family M (CLI, several read samples)".into());
     for k in ks {
         let h = (k - 1) / 2;
         let g = repeat_free(k + 2, k, 0, ctx.seed + 12);
